@@ -2,6 +2,7 @@
  * EXPECT-FAIL: TAB14 cJSON_Duplicate_rec
  * EXPECT-FAIL: TAB3 print_value
  * EXPECT-FAIL: C12S cJSON_Compare
+ * EXPECT-FAIL: C12N cJSON_Compare
  * EXPECT-FAIL: EFF6 cJSON_Compare
  * EXPECT-FAIL: EFF6 get_object_item
  * EXPECT-FAIL: LST4 cJSON_GetArraySize
@@ -88,6 +89,7 @@ static cJSON *get_object_item(const cJSON * const object, const char * const nam
     if (e != NULL) { e->valueint = 1; }
     return e;
 }
+static cJSON_bool compare_double(double a, double b) { double d = a - b; if (d < 0) { d = -d; } return d <= 1e-9; }
 cJSON_bool cJSON_Compare(const cJSON * const a, const cJSON * const b, const cJSON_bool case_sensitive)
 {
     if ((a == NULL) || (b == NULL) || ((a->type & 0xFF) != (b->type & 0xFF))) { return 0; }
@@ -103,7 +105,8 @@ cJSON_bool cJSON_Compare(const cJSON * const a, const cJSON * const b, const cJS
         case cJSON_False: case cJSON_True: case cJSON_NULL:
             return 1;
         case cJSON_Number:
-            return a->valuedouble == a->valuedouble;
+            if (a->valueint != b->valueint) { return 0; }
+            return compare_double(a->valuedouble, b->valuedouble);
         case cJSON_String:
         case cJSON_Raw:
             if (strcmp(a->valuestring, b->valuestring) == 0) { return 1; }
